@@ -1,7 +1,7 @@
 (* Extract.v — extraction of the executable models (ExtrOcamlBasic only; Z, N, positive and
    nat stay Coq's own inductive datatypes; no Extract Constant). *)
 From Coq Require Extraction ExtrOcamlBasic.
-From CgreenVerif Require Import Defs Runner Lemmas_Props.
+From CgreenVerif Require Import Defs Runner Lemmas_Props Mocks.
 From CgreenVerif.Gen Require Import Facts.
 
 Extraction "../ocaml/model.ml"
@@ -9,5 +9,6 @@ Extraction "../ocaml/model.ml"
   Runner.full_steps Runner.exec Runner.fw_init Runner.trace
   Lemmas_Props.ok_treeb
   BinInt.Z.add BinInt.Z.mul BinInt.Z.div BinInt.Z.modulo BinInt.Z.opp BinInt.Z.eqb BinInt.Z.ltb
+  Mocks.mrun Mocks.ms_init Facts.unlimited_ttl
   Facts.verdict_suite Facts.verdict_single Facts.rk_text Facts.rk_cute Facts.rk_xml
   Facts.rk_libxml Facts.rk_cdash Facts.msg_codes.
